@@ -880,7 +880,28 @@ def block(opc, y, z):
             st.PC = tm.binop("sub", st.PC, K(2, 16))
             if z in (0, 1):
                 st.MEMPTR = tm.binop("add", st.PC, K(1, 16))
-            st.repeat_flags = True   # flags 3/5 (and more for I/O) are redefined by the repeat: not modelled
+            # flags of an iteration that will be repeated (the instruction is "interrupted" by its own re-fetch):
+            # bits 5/3 come from the high byte of PC (the instruction's own address after PC -= 2); the I/O forms
+            # additionally re-derive H and P/V from B, the carry and bit 7 of the transferred byte
+            f1 = st.r["F"]
+            pch = AND(tm.hi8(st.PC), X5 | X3)
+            if z in (0, 1):
+                st.setF(OR(AND(f1, 0xFF & ~(X5 | X3)), pch))
+            else:
+                b = st.r["B"]
+                cf = bit(f1, 0)
+                nf = bit(f1, 1)          # N = bit 7 of the byte moved
+                pbase = AND(f1, PV_)
+                inv = K(PV_, 8)
+                p_cf_n = tm.binop("xor", tm.binop("xor", pbase, parity(AND(tm.binop("sub", b, b8(1)), 7))), inv)
+                p_cf_p = tm.binop("xor", tm.binop("xor", pbase, parity(AND(tm.binop("add", b, b8(1)), 7))), inv)
+                p_nc = tm.binop("xor", tm.binop("xor", pbase, parity(AND(b, 7))), inv)
+                h_cf_n = flag(eqz(AND(b, 0x0F)), H_)
+                h_cf_p = flag(tm.cmp("eq", AND(b, 0x0F), b8(0x0F)), H_)
+                h_nc = AND(f1, H_)
+                pv = tm.ite(cf, tm.ite(nf, p_cf_n, p_cf_p), p_nc)
+                hh = tm.ite(cf, tm.ite(nf, h_cf_n, h_cf_p), h_nc)
+                st.setF(OR(AND(f1, 0xFF & ~(X5 | X3 | H_ | PV_)), pch, hh, pv))
         out.append(("repeat" if taken else "stop", (lambda env, c=cond, t=taken: c if t else tm.unop("not", c)), finish(st, 2)))
     return out
 
